@@ -408,6 +408,85 @@ def c08_stage(seed, tier, stats):
     return [dict(v, scenario_obj=byid.get(v["scenario"])) for v in vs], len(scen)
 
 
+def stable_judge(trace, wd, stats):
+    cfg = cfg_text(constants={"TraceFile": "t.ndjson"}, post="Accepted")
+    r = tlc("StableTrace", cfg, files={"t.ndjson": trace}, workers=1, timeout=1200, heap="8g")
+    if r.error or r.violated:
+        raise Inconclusive("StableTrace did not accept the trace format: %s %s\n%s" % (r.error, r.violated, (r.errctx or r.out)[-3000:]))
+    pl = tlc_payloads(r, "VIOL")
+    if len(pl) != 1:
+        raise Inconclusive("StableTrace printed no verdict\n" + r.out[-2000:])
+    stats["stable_judge_states"] = stats.get("stable_judge_states", 0) + r.generated
+    stats["stable_gets_judged"] = stats.get("stable_gets_judged", 0) + pl[0]["nget"]
+    stats["stable_gets_overlapping_a_set"] = stats.get("stable_gets_overlapping_a_set", 0) + pl[0]["nover"]
+    return pl[0]["v"]
+
+
+def c08_sched_stage(seed, tier, stats):
+    """C08 'across any interleaving', exhaustively for small client programs: spec/StableConc.tla (every StableStore call =
+    Start / Txn / Ret; TLC checks the per-key register property RegLin on every interleaving, the read-through-cache design
+    as negative control) exports every interleaving; each is forced on the real WAL (concdrive mode stablesched: gates
+    around the MetaStore's GetStable/SetStable, sim and real bolt, []byte and uint64 API), followed by quiescent reads before
+    and after a restart; the recorded invocation/response history is judged by spec/StableTrace.tla (same predicate)."""
+    ti = 0 if tier == "quick" else 1
+    build(["concdrive"])
+    wd = scratch("verif-C08s-")
+    rng = random.Random(seed * 31 + 5)
+    want = (8000, 40000)[ti]
+    res = []
+
+    def on_payload(ln):
+        p = parse_payload(ln, "SCHED")
+        if p is not None:
+            if len(res) < want * 4:
+                res.append(p)
+            else:
+                k = rng.randrange(on_payload.n + 1)      # reservoir
+                if k < len(res):
+                    res[k] = p
+            on_payload.n += 1
+        return True
+    on_payload.n = 0
+    r = tlc("StableConc", cfg_text(constants={"ProgSet": tier if ti else "quick", "Cache": False}, invariants=["Fresh", "Emit"]),
+            timeout=(300, 1500)[ti], on_payload=on_payload)
+    if r.error or r.violated:
+        raise Inconclusive("StableConc design run failed: %s %s\n%s" % (r.error, r.violated, (r.errctx or r.out)[-2000:]))
+    neg = tlc("StableConc", cfg_text(constants={"ProgSet": "quick", "Cache": True}, invariants=["Fresh"]), timeout=300)
+    if neg.violated != "Fresh":
+        raise Inconclusive("StableConc negative control (read-through cache) was not rejected: %s %s" % (neg.violated, neg.error))
+    stats.update(stableconc_states=r.generated, stableconc_distinct=r.distinct, stableconc_interleavings=on_payload.n,
+                 stableconc_negative_control=neg.violated)
+    rng.shuffle(res)
+    res = res[:want]
+    scen = []
+    for k, p in enumerate(res):
+        scen.append({"id": "C08s-%d" % k, "mode": "stablesched", "world": ("real" if k % 12 == 0 else "sim"), "prog": [], "nreaders": 0,
+                     "readsEach": 0, "withCloser": False, "withStable": True, "segSize": 4096, "sched": [], "seed": seed + k,
+                     "preload": 0, "closeAfter": 0, "clients": p["progs"], "order": p["sched"], "u64": k % 2 == 0})
+    trace, _, _ = run_conc(scen, wd, "c08s")
+    vs = stable_judge(trace, wd, stats)
+    # other observations of the runs (panic, stuck, failed open/close) through the common judge's eyes
+    lines = open(trace).read().splitlines()
+    out = []
+    byid = {s["id"]: s for s in scen}
+
+    def scen_of(i):
+        while i >= 0 and '"ev":"reset"' not in lines[i]:
+            i -= 1
+        return json.loads(lines[i])["id"] if i >= 0 else "?"
+    for v in vs:
+        e = json.loads(lines[v["line"] - 1])
+        sid = scen_of(v["line"] - 1)
+        out.append({"clause": v["clause"], "scenario": sid, "event": e, "scenario_obj": byid.get(sid)})
+    for i, ln in enumerate(lines):
+        if ln.startswith('{"ev":"stuck"') or ln.startswith('{"ev":"panic"') or ('"res":"err"' in ln and ('"ev":"open"' in ln or '"ev":"close"' in ln)):
+            e = json.loads(ln)
+            sid = scen_of(i)
+            out.append({"clause": {"stuck": "Deadlock", "panic": "Panic"}.get(e["ev"], "StableError"), "scenario": sid, "event": e,
+                        "scenario_obj": byid.get(sid)})
+    return out, len(scen)
+
+
 def replay(r):
     build(["concdrive"])
     wd = scratch("verif-replay-")
